@@ -115,7 +115,8 @@ func (c *BaseLayout) PutBuffer(buf *bytes.Buffer) {
 func (c *BaseLayout) GetFileLine(e *Event) string {
 	fileLine := e.File + ":" + strconv.Itoa(e.Line)
 	if n := len(fileLine); n > c.FileLineLength {
-		fileLine = "..." + fileLine[n-c.FileLineLength+3:]
+		keep := max(c.FileLineLength-3, 0) // widths below 3 leave only the ellipsis
+		fileLine = "..." + fileLine[n-keep:]
 	}
 	return fileLine
 }
